@@ -18,7 +18,7 @@ claim("C02",
       "Decides structural necessary conditions of per-stream independence on every path: neither the server's per-session stream "
       "accept loop nor the client's local accept loop synchronously runs anything that can wait on the accepted stream (call cone "
       "to blocking primitives); Channel implementations hold no connection state and OpenConnection never stores into its receiver; "
-      "no OpenStream / protocol selection inside the upstream mutex. every io.CopyBuffer scratch buffer is allocated per copy; the shared physical connection/session is closed only by a failed session set-up or Shutdown, never by a per-channel path. Does not decide scheduling, smux flow control or byte isolation inside smux.",
+      "no OpenStream / protocol selection inside the upstream mutex. every io.CopyBuffer scratch buffer is allocated per copy; the shared physical connection/session is closed only by a failed session set-up or Shutdown, never by a per-channel path. accept loops do not park on channels / sync waits; every serving goroutine gets the stream of its own iteration (no shared re-assigned variable); Does not decide scheduling, smux flow control or byte isolation inside smux.",
       "Not decided: fairness, smux's shared receive buffer, the multistream/smux first-frame race.")
 
 claim("C14",
@@ -33,7 +33,7 @@ claim("C15",
       "accept-loop shape analysis over SSA + synchronous call cone to blocking primitives",
       "Decides, for every listener accept loop of package server (socket, DNS-over-socket, KCP/UDP), that no call inside the loop that "
       "receives the accepted connection can wait for that peer (handshake read, TLS handshake, any Read) unless it is started with go; "
-      "lists every Server implementation and how its peers arrive. Structural necessary condition for 'a stalled peer delays only itself'.",
+      "no server-side function calls, while holding a mutex field, anything that locks that field again (self-deadlock of the DNS pruner wedges all later peers); accept loops do not park on channels; lists every Server implementation and how its peers arrive. Structural necessary condition for 'a stalled peer delays only itself'.",
       "Not decided: fairness under load, time bounds, tls.Listen's lazy handshake; net/http's per-request goroutine is trusted.")
 
 claim("C17",
@@ -41,7 +41,7 @@ claim("C17",
       "Decides the ordering facts behind 'all data, then end-of-stream': in PipeData no close precedes a copier's completion report; a copier "
       "reports exactly once after io.Copy* and io.EOF only when the copy returned nil; both ends are closed after the pipe ends; the DNS "
       "tunnel's Read methods return io.EOF only under HasData()==false; the DNS client's Close sends the final ack and the Closed option "
-      "before closing its communicator on every live-session path. no per-channel failure path closes the session shared by the other channels. Structural, not a delivery proof.",
+      "before closing its communicator on every live-session path. no per-channel failure path closes the session shared by the other channels. a reader+writer pair closes its write half on every path; Structural, not a delivery proof.",
       "Not decided: timing, half-close, smux FIN ordering, waking a reader blocked in the DNS in-queue.")
 
 claim("C04",
@@ -60,7 +60,7 @@ claim("C05",
       "the stdio+tls branch) and no verification callbacks exist; every success path of the server config with requireClientCert stores "
       "RequireAndVerifyClientCert and the config is never dereferenced on the failure path; a configured CA reaches RootCAs and ClientCAs; the StartTLS "
       "ServerName is the port-less host at every call site; every TLS primitive takes its config from the manager; both ends of a password-protected UDP "
-      "endpoint agree on KDF constants, salt scheme, cipher constructor, shards, and pass the cipher on. GetTlsConfig returns a fresh object on every call (callers set ServerName / InsecureSkipVerify on it). Structural; chain validation is crypto/x509's.",
+      "endpoint agree on KDF constants, salt scheme, cipher constructor, shards, and pass the cipher on. GetTlsConfig returns a fresh object on every call (callers set ServerName / InsecureSkipVerify on it). the CA pool is a fresh empty pool plus the configured CA only; the server handshake returns a non-TLS connection only where the ClientAuth-derived requirement flag is false or the carrier is secure; a tls.Dial to a resolved address has ServerName set from the upstream Hostname() on every path. Structural; chain validation is crypto/x509's.",
       "Not decided: x509 chain validation and expiry, kcp cipher behaviour.")
 
 claim("C03",
@@ -70,7 +70,7 @@ claim("C03",
       "parameter; Channel.OpenConnection is invoked only under protocol == \"/\"+Name() of the same channel value; name matching uses ==/!= "
       "only; Filter returns Find results of listed names under err==nil and the whole table only for an empty list; NetworkChannel dials its "
       "own (scheme, host) and net.Dial occurs nowhere else in package server; handlers are registered as \"/\"+Name() over the session's own list. "
-      "no closure that outlives a loop iteration keeps the address of the loop variable (go 1.14 semantics per go.mod). Near-sufficient given go-multistream's exact match.",
+      "no closure that outlives a loop iteration keeps the address of the loop variable (go 1.14 semantics per go.mod). the protocol muxer is created per stream/connection, never package-level; Near-sufficient given go-multistream's exact match.",
       "Not decided: that the dialled socket is the configured service; allow-list decoding; go-multistream/smux internals (exact match trusted).")
 
 claim("C06",
@@ -79,8 +79,8 @@ claim("C06",
       "non-empty negotiated version), server upgrade (parsed, GET, Connection: upgrade, Upgrade == socketace/<negotiated>; failed checks re-bind the "
       "response to a literal whose constant status != 101, evaluated per path), NewServerConnection (both succeeded), negotiateVersion (a supported "
       "element equal to a client element), client (200 / 101 only); and that exactly one buffered reader exists per connection and handshake reads go "
-      "through it, and textproto readers are fed only by that reader, so the outcome cannot depend on segmentation.",
-      "Not decided: net/textproto on arbitrary bytes, header size limits, index safety of the two line parsers.")
+      "through it, and textproto readers are fed only by that reader, every index/slice expression of the handshake packages is proven in bounds for all peer input (linear-inequality entailment from dominating comparisons and strings.Index contracts, Fourier-Motzkin refutation) — the structural part of the no-crash clause; so the outcome cannot depend on segmentation.",
+      "Not decided: net/textproto on arbitrary bytes, header size limits, panics other than index/slice bounds.")
 
 claim("C01",
       "rule over every Read([]byte) method (len(p)-dependent error returns; remainder-store must-pass-through after copy), provenance of returned connections, who-may-use of the unbuffered field, pipe wiring, constant bounds",
@@ -88,7 +88,7 @@ claim("C01",
       "the caller's buffer is small and every partial copy stores its remainder back on all paths; BufferedInputConnection.Read delegates to the "
       "bufio.Reader, connections returned by the handshake functions derive from the buffered connection and neither the raw carrier nor the embedded "
       "unbuffered connection is used again; PipeData starts one copier per direction and each reaches io.Copy* with its own reader/writer; both smux "
-      "configurations start from DefaultConfig with MaxFrameSize inside smux's range. every Write([]byte) reports len(p) of the buffer as passed (or the delegate's count) on success and the websocket writer forwards the whole buffer. Not byte equality.",
+      "configurations start from DefaultConfig with MaxFrameSize inside smux's range. every Write([]byte) reports len(p) of the buffer as passed (or the delegate's count) on success and the websocket writer forwards the whole buffer. every serving goroutine works on the connection accepted for it (loop-variable escape); Not byte equality.",
       "Not decided: equality of delivered bytes, library behaviour (smux, gorilla, kcp, crypto/tls), partial writes.")
 
 claim("C16",
@@ -96,7 +96,7 @@ claim("C16",
       "Decides the control structure of the client's connection policy: the upstream connect is reachable only on ConnectDirectly's false edge; "
       "upstreams are tried as Data[0], Data[1], ... with failure continuing and the first success returning, no reordering helper; the shared "
       "connection/session are stored only while the upstream mutex is held (directly or in helpers called only under it) and a new physical "
-      "connection is opened only under connection == nil || connection.Closed() inside the critical section; GetTlsConfig is fresh per attempt so one upstream's ServerName cannot leak into the next attempt; a deadline/timer must precede the "
+      "connection is opened only under connection == nil || connection.Closed() inside the critical section; GetTlsConfig is fresh per attempt so one upstream's ServerName cannot leak into the next attempt; the reuse test is evaluated inside the lock region; a deadline/timer must precede the "
       "blocking client handshake in every Upstream.Connect (violated on the pinned tree at all five: recorded known findings).",
       "Not decided: numeric time bounds, OS connect time-outs, reconnect after loss (smux keep-alive timing).")
 
@@ -115,7 +115,7 @@ claim("C07",
       "+/- constants (rotation invariance = wrap safety); the bounded ack memory evicts from the head and every append is followed by the bound on all "
       "paths; every Lock in the DNS packages is released (directly or by a passed defer) on every path to every return; closures invoked under a queue "
       "mutex cannot block on a channel; outgoing acks are in.NextSeqNo-1 and incoming acks/packets reach out.UpdateAcked/in.Append of the same endpoint; "
-      "the chunking loop runs only where mtu > 0 holds. the in-queue releases only NextSeqNo in order, parks only unseen in-window packets and remembers them as seen; OutQueue.Write's returned count covers every queued chunk; acked chunks are removed by sequence number equality. Not a delivery proof.",
+      "the chunking loop runs only where mtu > 0 holds. the in-queue releases only NextSeqNo in order, parks only unseen in-window packets and remembers them as seen; OutQueue.Write's returned count covers every queued chunk; acked chunks are removed by sequence number equality. ack/payload fields of an Err-bearing answer reach the queues only on Err == nil; no function re-locks a mutex field it holds (cone incl. func-typed fields). Not a delivery proof.",
       "Not decided: delivery, retransmission convergence, duplicate suppression over real loss histories, liveness.")
 
 claim("C13",
@@ -124,7 +124,7 @@ claim("C13",
       "share one critical section; in every handler all stores to the session, calls on its queues and closeConnection are on the err==nil edge of "
       "validateAndGetUser(request id, source address), which itself updates last-contact only after the address comparison and succeeds only for the owner's "
       "address; a table slot is cleared only for a session read from that same table; closeConnection clears the live slot only after a pointer-identity test "
-      "with its occupant. The table size equals the user-id modulus of the wire format.",
+      "with its occupant. The table size equals the user-id modulus of the wire format. Address equality is full String() equality (directly or via a helper summarised as such); the client adopts a user id only from an error-free version answer.",
       "Not decided: interleavings of the unlocked table reads on the message path, expiry timing.")
 
 claim("C12",
@@ -169,7 +169,7 @@ claim("C10",
       "Decides the agreement structure of response carriage: response Encode/Decode layouts agree (widths, fields, tag constants, codec object, byte order); "
       "the record types constructed by the Wrap* functions equal the case sets of the reassembly and ordering type switches and the dispatcher covers every "
       "selectable query type; per record type the order-tag bytes prepended equal the prefix stripped; tag + chunk fills A (4) and AAAA (16) exactly; CNAME, MX "
-      "and SRV targets are built by PrepareHostname; no character-set trimming in the reassembly cone; per-record payload constants stay within the record type's capacity; the private RR type registered with miekg equals the type emitted and queried.",
+      "and SRV targets are built by PrepareHostname; no character-set trimming in the reassembly cone; per-record payload constants stay within the record type's capacity; no capacity guard in a Wrap* function is decided by its operand type alone and narrowing conversions there are proven in range; the private RR type registered with miekg equals the type emitted and queried.",
       "Not decided: miekg Pack/Unpack (escaping, TXT limits), capacity for all payload lengths, tag arithmetic beyond 512 records.")
 
 for pid in ["C01","C02","C03","C04","C05","C06","C07","C08","C09","C10","C11","C12","C13","C14","C15","C16","C17","C18"]:
